@@ -35,7 +35,11 @@ class CTRLInterface(UDPLink):
 		# Read data from socket
 		# NOTE: SETFH may carry up to 64 pairs of frequencies (trxcon: TRXC_BUF_SIZE = 1024)
 		data, remote = self.sock.recvfrom(1024)
-		data = data.decode()
+		try:
+			data = data.decode()
+		except UnicodeDecodeError:
+			log.error("Non-text data on TRXC interface")
+			return
 
 		if not self.verify_req(data):
 			log.error("Wrong data on TRXC interface")
@@ -43,7 +47,11 @@ class CTRLInterface(UDPLink):
 
 		# Attempt to parse a command
 		request = self.prepare_req(data)
-		rc = self.parse_cmd(request)
+		try:
+			rc = self.parse_cmd(request)
+		except ValueError:
+			log.error("Malformed TRXC command '%s'" % " ".join(request))
+			rc = -1
 
 		if type(rc) is tuple:
 			self.send_response(request, remote, rc[0], rc[1])
